@@ -1,10 +1,10 @@
 """C20 — style settings resolve by precedence and never leak"""
-from corr import style_family, stylestate_family
+from corr import style_family, stylecopy_family, styleeff_family, stylestate_family
 from oracles import c20 as oracle
 
 GEN = ["Defaults", "StyleTemp", "StyleSchema"]
-LEAN_TARGETS = ["MagpyVerif.Props.C20", "MagpyVerif.Props.C20b", "MagpyVerif.Props.C20c", "MagpyVerif.Props.C20d"]
-PROPS = ["MagpyVerif.Props.C20", "MagpyVerif.Props.C20b", "MagpyVerif.Props.C20c", "MagpyVerif.Props.C20d"]
+LEAN_TARGETS = ["MagpyVerif.Props.C20", "MagpyVerif.Props.C20b", "MagpyVerif.Props.C20c", "MagpyVerif.Props.C20d", "MagpyVerif.Props.C20g", "MagpyVerif.Props.C20f", "MagpyVerif.Props.C20e", "MagpyVerif.Props.C20h"]
+PROPS = ["MagpyVerif.Props.C20", "MagpyVerif.Props.C20b", "MagpyVerif.Props.C20c", "MagpyVerif.Props.C20d", "MagpyVerif.Props.C20g", "MagpyVerif.Props.C20f", "MagpyVerif.Props.C20e", "MagpyVerif.Props.C20h"]
 
 
 def run(ctx, model_ok):
@@ -18,6 +18,16 @@ def run(ctx, model_ok):
         ctx.failing += ssfails
         ctx.cov["correspondence_samples"] += sst.pop("samples")
         ctx.cov["correspondence_sstate"] = sst
+        # histories with COPIES (obj.copy(), obj.copy(style_…), style.copy()) on real objects against Model/StyleCopy.lean
+        sct, scfails = stylecopy_family.run_stream(ctx, ctx.scale(80, 1500))
+        ctx.failing += scfails
+        ctx.cov["correspondence_samples"] += sct.pop("samples")
+        ctx.cov["correspondence_scopy"] = sct
+        # the real get_style after a history against Model/StyleEffective.lean (defaults layers derived from object 0's tree)
+        est, efails = styleeff_family.run_stream(ctx, ctx.scale(80, 1500))
+        ctx.failing += efails
+        ctx.cov["correspondence_samples"] += est.pop("samples")
+        ctx.cov["correspondence_seff"] = est
     budget = 3 if len(ctx.broken) else 1
     fails, ost = oracle.sweep(ctx, ctx.scale(12, 400) * budget)
     ctx.failing += fails
@@ -43,21 +53,49 @@ def run(ctx, model_ok):
                             "other.style, reads) on the real magpylib.defaults and on 0-3 real objects of all eight object classes; outcome (exception class) and the full as_dict() of the object "
                             "touched compared exactly after EVERY operation with Model/StyleState.lean run on the regenerated classes / validators / DEFAULTS (Gen/StyleSchema); the real heap is "
                             "checked for property objects shared between objects, and a final reset() against the pristine as_dict(); defaults are reset before and after every history")
+    if "correspondence_scopy" in ctx.cov:
+        sc = ctx.cov["correspondence_scopy"]
+        ctx.cov["evaluations"] += sc["ops"]
+        ctx.cov["traces_validated_against_impl"] += sc["histories"]
+        ctx.cov["rule"] += ("; scopy stream: random histories (3-16 steps, generated while they run) on the real magpylib.defaults and 1-3 real objects in which about a quarter of the steps are "
+                            "copies through the public API — b = a.copy(), b = a.copy(style={…}, style_<magic>=value) (accepted and rejected keyword sets), s = X.copy() of a style object or of "
+                            "magpylib.defaults — also of objects whose style does not exist yet and of copies; the copy becomes a new object that the following sstate operations (update, attribute "
+                            "assignment, style = dict / None / other.style, reads) target, biased to copies and their originals; outcome and full as_dict() of the object touched (for a copy: the new "
+                            "object) compared exactly after EVERY step with Model/StyleCopy.lean (driver family scopy); the label a copy is given is read off the real copy and passed to the model, "
+                            "a label string outside the value panel is masked as 'txt' on both sides; on the real heap: no property object shared between original and copy right after the copy "
+                            "nor between any two objects at the end, and after every step the as_dict() of every other object is unchanged; defaults reset before and after every history")
+    if "correspondence_seff" in ctx.cov:
+        se = ctx.cov["correspondence_seff"]
+        ctx.cov["evaluations"] += se["cases"]
+        ctx.cov["traces_validated_against_impl"] += se["cases"]
+        ctx.cov["rule"] += ("; seff stream: after a random history as in the sstate stream (on the real magpylib.defaults and 1-3 real objects) the REAL get_style(obj, magpylib.defaults, "
+                            "**style_<magic> keywords) — no keyword, keywords of the object's own style, of another family (dropped), an unknown first segment (ValueError), refused values — "
+                            "against Model/StyleEffective.getStyleW on the world the state machine reaches: the whole resolved as_dict() and as_dict(flatten=True, separator='_') exactly, or the "
+                            "exception class; the model's families come from the regenerated get_families table; defaults reset before and after every history")
     ctx.cov["not_shown"] = ["validators of the concrete style classes (colour, symbol, line-style normalisation) and CPython attribute dispatch: style oracle + mp/resolve streams only "
                             "(the model's `assign` covers plain and sub-object properties, tied by the stream, no theorem about it)",
                             "linearize_dict(magic_to_dict(kw)) is shown equal to kw as a key->value map (lookup equality), not as an ordered list: magic_to_dict groups keys by first segment",
                             "separators of more than one character (the model's split/join take one character; magpylib uses '_' and '.')",
                             "copy independence in the CPython heap: for update_nested_dict modelled with addresses (theorem update_nested_sharing, stream compares id()), "
-                            "for style objects oracle only",
+                            "for style objects the oracle and the heap observations of the sstate / scopy streams only",
                             "enumeration-valued leaves (symbols, line styles) are sampled only through their defaults",
-                            "refinement of a whole history to a map path -> value (C20d.reads_refine): proved for every history over the full op set on the defaults and any number of objects in "
-                            "which the ACCEPTED operations are: assignments to plain properties (any depth), update() on any receiver in magic / nested / mixed notation (positional dict and keywords, "
-                            "either _match_properties) whose argument after magic_to_dict fits the receiver's class, obj.style = dict / None / other.style, display.style.reset(), defaults.reset(), "
-                            "reads; rejected operations are unrestricted. NOT covered when accepted: a dict / None / a string assigned to a SUB-OBJECT property (the new object takes constructor "
-                            "defaults for the keys the dict lacks: needs the constructor on partial dictionaries), the deprecated alias Magnetization.size, _replace_None_only=True, dicts as values "
-                            "of plain properties; for those only reachable_states_wellformed / reachable_states_stable and the sstate stream speak",
-                            "effective_style_refines_partial connects get_style's precedence chain to the abstract map at the OBJECT layer only: the family / base default layers are still the "
-                            "abstract flat functions of Props/C20 (hypothesis hdef); as_dict(flatten=True) of display.style.<family> and the non-None merge over families are not model functions",
+                            "refinement of a whole history to the value read at a plain property (C20g.reads_refine_all_partial, which extends C20d.reads_refine): proved for every history over the "
+                            "full op set on the defaults and any number of objects in which the ACCEPTED operations are: attribute assignments of ANY kind at any depth (a value or a dict for a plain "
+                            "property; a dict / None / a string for a sub-object property — the constructor on partial dictionaries is characterised leaf by leaf by ctorRead: named parameters with their "
+                            "defaults, magic_to_dict, None for what the dict lacks, alias keys last; the deprecated alias Magnetization.size), update() on any receiver in magic / nested / mixed notation "
+                            "(positional dict and keywords, either _match_properties, either _replace_None_only) whose argument after magic_to_dict FITS the receiver's class (keys are properties, plain "
+                            "properties get non-dict values, sub-objects get fitting dicts; pairwise different keys are proved, not assumed: updArg_wf), obj.style = dict / None / other.style, "
+                            "display.style.reset(), defaults.reset(), reads; rejected operations are unrestricted. NOT covered when accepted — exactly: an update (or obj.style = dict) whose argument "
+                            "after magic_to_dict, at some level, (1) gives None / a string to a SUB-OBJECT key, (2) gives a dict to a plain property, or (3) uses the alias key `size` (keys that are no "
+                            "properties, accepted only with _match_properties=False where they are ignored, ARE covered). For those the update loop is characterised as the fold of the per-leaf setter effects over "
+                            "new_dict (Lemmas/StyleLeaf.setAllS_read), but new_dict still contains the rebuilt dictionaries of the current sub-objects, so it is not yet a function of the call alone; "
+                            "reachable_states_wellformed / reachable_states_stable and the sstate stream speak for them",
+                            "effective_style_refines_partial (C20d) connects get_style's precedence chain to the abstract map at the OBJECT layer only (its defaults layers are the abstract flat "
+                            "functions of Props/C20); the DEFAULTS layers are derived from the tree of magpylib.defaults in C20e (Model/StyleEffective.getStyleW, seff stream): "
+                            "effective_style_reads(_gen/_exact) and show_keyword_wins hold for every well-formed (= every reachable) world over READS of the world, for show() keywords that fit the "
+                            "style class after magic_to_dict, CONDITIONAL on get_style returning: when the two updates raise is not characterised by a theorem (exception classes compared by the seff "
+                            "stream only; 'no keywords => never raises' observed, not proved); keywords assigning a dict / None / a string to a sub-object and the style={...} keyword of show() are "
+                            "outside the theorems (the latter also outside the model); the composition with the refinement of histories is C20h.effective_style_refines (first non-None of [show keyword, abstract own-style value, abstract family-default values most specific first, abstract base-default value], every value the absStep fold of the history; under CovOp for accepted updates)",
                             "'invalid names are rejected': a theorem for every name that is not a property and not in the regenerated per-class list of non-property names the code still "
                             "lets through (private slots `_color`, `__doc__`, `__module__`, `__dict__`, the frozen flag — witness private_slots_not_rejected; the model reports `shadow` for "
                             "them and makes no claim afterwards); every method / dunder-method name is rejected since repo fix 3fc7703 (method_names_rejected)",
@@ -68,7 +106,9 @@ def run(ctx, model_ok):
                             "values outside the panel are not covered",
                             "sharing through explicit assignment of a property OBJECT (`b.style.path = a.style.path` stores the same Path object in both styles) is not in the model (no addresses); the "
                             "sstate stream checks the real heap for shared property objects after every history of modelled operations",
-                            "styles of COPIES (obj.copy()) in the state machine: forest/copy model (C18) and style oracle only",
+                            "styles of COPIES: theorems of Props/C20f are about the state machine with copies (Model/StyleCopy: copy = append the same tree value with `label` assigned through its "
+                            "setter); that CPython's deepcopy yields an object graph sharing nothing with the original is observed on the real heap by the scopy stream (no addresses in the model); the "
+                            "label string BaseGeo.copy computes (add_iteration_suffix) is a parameter of the model operation, not modelled; non-style keywords of copy() (position=…) are C18's",
                             "resolution_precedence is about the flat model Model/StyleTree.getStyle; nested_resolution_matches_flat links the nested model to it only at paths where the object's "
                             "style already has a non-dict value and no keyword/default key is a proper prefix or extension of the path"]
 
